@@ -32,6 +32,7 @@ type Prog struct {
 	Dir            string
 	forPats        map[types.Object]ast.Expr
 	forPatsButLast map[types.Object]ast.Expr
+	writtenGlobals map[types.Object]bool
 	ModPath        string // module path of the analysed tree
 	DepVers        map[string]string
 }
@@ -351,4 +352,38 @@ func (p *Prog) installSentinelOracle() {
 		return false
 	}
 	cannotBeSentinel = func(x *Term, g string) bool { return cannot(x, g, 0) }
+}
+
+// neverWritten: the package-level variable is assigned nowhere in product code
+// (outside its declaration) and nothing is stored through it or its address taken.
+func (p *Prog) neverWritten(v *types.Var) bool {
+	if p.writtenGlobals == nil {
+		p.writtenGlobals = map[types.Object]bool{}
+		for _, fs := range p.productFuncs() {
+			info := fs.Pkg.TypesInfo
+			ast.Inspect(fs.Decl.Body, func(n ast.Node) bool {
+				mark := func(e ast.Expr) {
+					if id := rootIdent(e); id != nil {
+						if g, ok := info.Uses[id].(*types.Var); ok && isPkgLevel(g) {
+							p.writtenGlobals[g] = true
+						}
+					}
+				}
+				switch x := n.(type) {
+				case *ast.AssignStmt:
+					for _, l := range x.Lhs {
+						mark(l)
+					}
+				case *ast.IncDecStmt:
+					mark(x.X)
+				case *ast.UnaryExpr:
+					if x.Op == token.AND {
+						mark(x.X)
+					}
+				}
+				return true
+			})
+		}
+	}
+	return !p.writtenGlobals[v]
 }
